@@ -214,6 +214,32 @@ where
     }
 }
 
+#[cfg(feature = "verif-hooks")]
+impl<C, B, K> Pool<C, B, K>
+where
+    B: Send + 'static,
+    C: PoolableConnection<B>,
+    K: Key,
+{
+    pub(in crate::client) fn verif_snapshot(&self) -> Vec<crate::verif_hooks::PoolEntry> {
+        let inner = self.inner.lock();
+        let keys = self.keys.lock();
+        keys.verif_iter()
+            .map(|(key, token)| crate::verif_hooks::PoolEntry {
+                key: format!("{key:?}"),
+                idle: inner.idle.get(&token).map(|i| i.len()).unwrap_or(0),
+                waiting: inner.waiting.get(&token).map(|w| w.len()).unwrap_or(0),
+                waiting_live: inner
+                    .waiting
+                    .get(&token)
+                    .map(|w| w.iter().filter(|tx| !tx.is_closed()).count())
+                    .unwrap_or(0),
+                connecting: inner.connecting.contains(&token),
+            })
+            .collect()
+    }
+}
+
 pub(in crate::client) struct PoolRef<C, B>
 where
     C: PoolableConnection<B>,
